@@ -454,6 +454,7 @@ CHECKS = {
             {"name": "TestC16Outage", "quick": 48, "thorough": 1600},
             {"name": "TestC16Silent", "quick": 64, "thorough": 1600},
             {"name": "TestC16Leader", "quick": 320, "thorough": 8000, "shards": {"quick": 8, "thorough": 16}},
+            {"name": "TestC16Large", "kind": "plain", "quick": 1, "thorough": 1, "shards": {"quick": 1, "thorough": 1}},
         ],
     },
     "C17": {
